@@ -6,6 +6,7 @@ import (
 	"time"
 
 	"github.com/0xReLogic/Helios/internal/config"
+	"github.com/0xReLogic/Helios/internal/ratelimiter"
 	"github.com/0xReLogic/Helios/internal/verifrt"
 )
 
@@ -182,3 +183,5 @@ func verifNextOutcome() (kind int, status int) {
 
 // verifServerCtx marks a request as running under an http.Server (native replay only).
 var verifServerCtx = func(r *http.Request) *http.Request { return r }
+
+func verifLimiterCleanup(rl *ratelimiter.TokenBucketRateLimiter) { ratelimiter.VerifCleanup(rl) }
